@@ -594,3 +594,55 @@ Theorem C05_unlocated_no_comments : forall st D, unlocated_b D = true ->
   erase_sfile (lay_file st D) = lay_file st D /\ print_file_tokens_nc st D = print_file_tokens st D.
 Proof. exact unlocated_no_comments. Qed.
 Print Assumptions C05_unlocated_no_comments.
+
+(* ---- byte level, the layout test as a LEMMA (second slot of round 4): proofs/ProtoPrintBytesLayoutProofs.v has
+   the general machinery (a line given as tokens + whitespace-only separators is a layout step: items_line; every
+   wp / wend of the writer appends "optional empty line, indentation, line, newline", so a writer step whose lines
+   carry the tokens ts extends every layout by ts: T_wp, T_wgap, T_wend, T_comp, T_wfold, T_final; dotted names:
+   qname_items_ok) and closes it for the FILE HEADER: generated comment, syntax, package (dotted name), sorted
+   imports, file options with their blank lines. Fragment proved: files without declarations. header_ok = the
+   header's tokens are lexable (identifiers are identifiers, literals canonical). Declarations (sections, fields,
+   option forms) remain under the computed test of C05_bytes_roundtrip_subclass. *)
+From J5V.proofs Require Import ProtoPrintBytesLayoutProofs.
+
+Theorem C05_bytes_header_layout : forall gen s, s_exts s = [] -> s_body s = [] -> header_ok gen s = true ->
+  is_layout (emit_file s) (render_sfile gen s) = true.
+Proof. exact render_header_layout. Qed.
+Print Assumptions C05_bytes_header_layout.
+
+Theorem C05_bytes_layout_no_decls : forall gen imp D, d_exts D = [] -> d_body D = [] ->
+  header_ok gen (lay_file (to_symtab (dfile_symtab imp D)) D) = true ->
+  is_layout (print_file_tokens (to_symtab (dfile_symtab imp D)) D) (render_bytes gen imp D) = true.
+Proof. exact bytes_layout_no_decls. Qed.
+Print Assumptions C05_bytes_layout_no_decls.
+
+(* first fragment WITH declarations (proofs/ProtoPrintBytesLayoutEnumProofs.v): descriptors without source info whose
+   laid-out file has no extend blocks and whose declarations are enums without options (sections with empty and
+   non-empty bodies, the blank line after a section, value lines incl. negative numbers) and a lexable header.
+   [enums_fragment_b] is purely syntactic + lexability of names / literals: NO computed layout test. The byte-level
+   round trip follows: the lexer model reads render_bytes D as exactly print_file_tokens D, the parser model reads a
+   descriptor equivalent to D. Missing for the whole sub-class: field lines (labels, dotted / map types), oneof /
+   message nesting, services, and the option forms — the line and writer lemmas they need are in
+   ProtoPrintBytesLayoutProofs.v (items_line, qname_items_ok, T_section in the enum file). *)
+From J5V.proofs Require Import ProtoPrintBytesLayoutEnumProofs.
+
+Theorem C05_bytes_layout_enums : forall gen imp D,
+  let st := to_symtab (dfile_symtab imp D) in
+  unlocated_b D = true -> s_exts (lay_file st D) = [] ->
+  forallb enum_elem_ok (s_body (lay_file st D)) = true -> header_ok gen (lay_file st D) = true ->
+  is_layout (print_file_tokens st D) (render_bytes gen imp D) = true.
+Proof. exact bytes_layout_enums. Qed.
+Print Assumptions C05_bytes_layout_enums.
+
+Theorem C05_bytes_roundtrip_enums : forall gen imp D, wf_dfile imp D -> enums_fragment_b gen imp D = true ->
+  let text := render_bytes gen imp D in
+  scan_text text = Some (print_file_tokens (to_symtab (dfile_symtab imp D)) D)
+  /\ exists D0, read_text imp text = Some (erase_dfile D0) /\ desc_equiv D D0 /\ wf_dfile imp D0.
+Proof. exact bytes_roundtrip_enums. Qed.
+Print Assumptions C05_bytes_roundtrip_enums.
+
+Example C05_example_bytes_enums :
+  wf_dfile ProtoPrintFileExample.ex_imp ExEnum.ex_enum_file
+  /\ enums_fragment_b (ProtoPrintCorr.sb "verif") ProtoPrintFileExample.ex_imp ExEnum.ex_enum_file = true.
+Proof. exact example_enums. Qed.
+Print Assumptions C05_example_bytes_enums.
